@@ -43,7 +43,7 @@ CODES = {
     "C03": {5, 7, 8, 9},
     "C08": {2, 3, 4, 8},
     "C11": {5, 8, 9, 10},
-    "C12": {2, 3, 5, 9},
+    "C12": {1, 2, 3, 5, 9},
     "C13": {11},
     "C14": {1, 5, 6, 9, 12, 13},
 }
@@ -242,9 +242,17 @@ def lockstep_args(tier, seed, variant=""):
     return ["-seed", str(seed), "-n", "800", "-shards", "48", "-maxcap", "16", "-maxops", "30", "-bigevery", "60"]
 
 
+def determ_args(tier, seed, variant=""):
+    if tier == "quick":
+        return ["-seed", str(seed), "-n", "80", "-shards", "12", "-maxcap", "8", "-maxops", "10"]
+    return ["-seed", str(seed), "-n", "1200", "-shards", "48", "-maxcap", "16", "-maxops", "30", "-bigevery", "60"]
+
+
 FAMILIES = {
     "C01": [("hist", hist_args)],
+    "C12": [("determ", determ_args)],
     "C14": [("backend", backend_args), ("lockstep", lockstep_args)],
+    "C02": [("hist", hist_args), ("load", load_args)],
     "C03": [("hist", hist_args), ("load", load_args)],
     "C08": [("hist", hist_args), ("load", load_args)],
     "C11": [("hist", hist_args), ("load", load_args)],
